@@ -29,6 +29,8 @@ def main():
     checks = []
     for pid in sorted(CLAIMED):
         technique, text, note, ref = CLAIMED[pid]
+        text = text + (" " + ADDITIONS[pid] if pid in globals().get("ADDITIONS", {}) else "")
+        note = note + globals().get("ROBUST", "")
         checks.append({
             "property_id": pid,
             "quick_cmd": f"{PY} -m sa.check {pid} --tier quick",
